@@ -307,6 +307,10 @@ func (m *Model) readFile(arg string, class string) string {
 	if n == nil {
 		m.fail(class)
 	}
+	if n.Kind == "dir" {
+		// there is something there, but it cannot be read as a file: the command does not meet its demand
+		m.fail(class)
+	}
 	if n.Kind != "file" {
 		m.unmodelled("reading non-regular %q", arg)
 	}
@@ -1158,6 +1162,10 @@ func (m *Model) exec(neg bool, args []string) {
 	if strings.Contains(prog, "/") {
 		m.unmodelled("exec with a path")
 	}
+	if strings.HasPrefix(prog, "zzprog") {
+		m.execTool(neg, prog, background)
+		return
+	}
 	if p := m.getenv("PATH"); p != m.H.Path && !(in(HelperNames, prog) && strings.HasSuffix(p, ":"+m.H.Path) && !m.lookPathShadow(prog)) {
 		m.unmodelled("exec after PATH was changed")
 	}
@@ -1250,6 +1258,15 @@ func (m *Model) exec(neg bool, args []string) {
 				}
 			}
 			res = tskit.HelperResult{Known: true}
+		case "spawn":
+			// spawn --pid=FILE MS: a grandchild holds the output pipes for MS ms; the command itself is over at once
+			if len(sub) != 3 || !strings.HasPrefix(sub[1], "--pid=/") || strings.HasPrefix(strings.TrimPrefix(sub[1], "--pid="), m.H.WorkAbs) {
+				m.unmodelled("spawn form")
+			}
+			if n, err := strconv.Atoi(sub[2]); err != nil || n < 0 || n > 5000 {
+				m.unmodelled("spawn duration")
+			}
+			res = tskit.HelperResult{Known: true}
 		case "sleepms":
 			if len(sub) != 2 {
 				m.unmodelled("sleepms form")
@@ -1303,6 +1320,67 @@ func (m *Model) exec(neg bool, args []string) {
 		m.fail("exec-unexpected-success")
 	}
 	if res.Exit != 0 && !neg {
+		m.fail("exec-unexpected-failure")
+	}
+}
+
+var toolRe = regexp.MustCompile(`^#!/bin/sh\n(?:echo ([a-z0-9-]+)\n)?(?:exit ([0-9])\n)?$`)
+
+// execTool: a program the script installed itself. The names zzprog* exist nowhere on the host; the script puts a
+// directory of its own in front of PATH and copies a two-line shell script there. The name is looked up when the line runs:
+// first directory of PATH (those in front of the host's) holding a regular file of that name with an execute bit.
+func (m *Model) execTool(neg bool, prog string, background bool) {
+	if background {
+		m.unmodelled("installed program in the background")
+	}
+	p := m.getenv("PATH")
+	if p != m.H.Path && !strings.HasSuffix(p, ":"+m.H.Path) {
+		m.unmodelled("exec after PATH was changed")
+	}
+	m.stdin = ""
+	var tool *Node
+	if rest := strings.TrimSuffix(strings.TrimSuffix(p, m.H.Path), ":"); rest != "" {
+		for _, d := range strings.Split(rest, ":") {
+			if !strings.HasPrefix(d, m.H.WorkAbs+"/") {
+				m.unmodelled("PATH entry outside $WORK")
+			}
+			n := m.stat(path2(m.rel(d), prog))
+			if n == nil || n.Kind == "dir" {
+				continue
+			}
+			if n.Kind != "file" {
+				m.unmodelled("installed program of kind %s", n.Kind)
+			}
+			if !n.PermKnown || n.Perm&0o111 == 0 {
+				continue
+			}
+			if n.Perm&0o500 != 0o500 {
+				m.unmodelled("installed program with mode %o (user-dependent)", n.Perm)
+			}
+			tool = n
+			break
+		}
+	}
+	if tool == nil {
+		m.stdout, m.stderr = "", ""
+		if !neg {
+			m.fail("exec-not-found")
+		}
+		return
+	}
+	sm := toolRe.FindStringSubmatch(tool.Data)
+	if sm == nil {
+		m.unmodelled("installed program with other content")
+	}
+	m.stdout, m.stderr = "", ""
+	if sm[1] != "" {
+		m.stdout = sm[1] + "\n"
+	}
+	ok := sm[2] == "" || sm[2] == "0"
+	if ok && neg {
+		m.fail("exec-unexpected-success")
+	}
+	if !ok && !neg {
 		m.fail("exec-unexpected-failure")
 	}
 }
